@@ -53,6 +53,15 @@ CFG = {
             "2^31(-1), 2^32(-1,+5), 10^18, 2^63-1 | 2^63, 2^64(+5), 2^127(-1), 10^39 (quick: 2 generations per object number + every generation with 12 and i64::MAX; thorough: full cross), each as written and with the object number, "
             "the generation, and both padded to exactly 19/20/38/39/40 digits, in all the positions above; oracle `refDenote` (Driver/C02.lean, spec side: the reference (value, value) iff both values <= i64::MAX; otherwise at the top level "
             "the first token alone by NumLit.denote, inside an array / dictionary not an object); and every random value that contains a number once more, spelled by `padSpell` (the encoder's freedoms + 0..45 zeros per integer position at any depth). "
+            "SIGNED COMPONENTS OF A REFERENCE (`sgn` / `nosgn` cases, corpus signed_reference.case 32 hand-built): object number and generation are integers of the lexical rules, so each may carry an explicit `+` "
+            "(also before leading zeros) and `-0` is 0: 7 bases (7 0, 12 3, 0 0, 629 1, 1 65535, i64::MAX 0, 5 i64::MAX) x sign of the object number (none, `+`, `-`) x sign of the generation x zero padding behind the sign "
+            "(5 patterns incl. 19 zeros; quick 2 per combination, rotating) x 8 whitespace / comment separators x 4 leads, each bare before the generator's following contexts (quick 4 of 15 rotating, thorough all) and in 9 positions "
+            "(single array element, between elements, behind / before another reference, behind a string, dictionary value last / not last, array in a dictionary, dictionary in an array); a `-` before a non-zero number: not an object (`nosgn`). "
+            "Near misses that are no references (14 shapes: `7 + R`, `7 +R`, `7 + 0 R`, `7 0 +R`, `7 +0R x`, `7 +0 Rx`, `7 +-0 R`, `7 ++0 R`, `7 -+0 R`, `7 +0 +R`, `7 +0 r`, `7 - 0 R`, `7 +0 R+`, LF-separated lone `+`) after 5 bases x 3 signs of the first number: "
+            "at the top level the first number alone with the cursor behind it, in the 9 positions not an object. Expectation: the judge's OWN reading of the case text (Driver/C02.lean sgnShape / sgnDenote / sgnMember: optional sign, digits, ws+, optional sign, digits, ws+, `R`, "
+            "end or non-regular byte; shares nothing with the model; consistent with Spells.int and with RefTail of Props/C02Struct.lean, whose generation already carries the optional sign - `Spells.ref` itself is NOT extended, so spell_parse does not cover the signed spellings); "
+            "the judge recognises a case text as a member of the family, so shrunk replays stay inside it; classes wrong-value-or-cursor / legal-spelling-rejected / non-reference-accepted. Also every reference written by `padSpell` (random values, any depth) now carries a `+` before "
+            "the object number / the generation one time in three each. Per tier: quick 2491 ordinary cases (1211 sgn + 1280 nosgn), thorough 9660 (7560 sweep + 2100 near misses); as many view twins (a third of the `sgn` twins end the window with the spelling). "
             "RAW `#` IN NAMES (`hash` / `nohash` cases, corpus raw_hash.case 90 hand-built): in a name token `#` followed by two hexadecimal digits is a code for one byte (00 not allowed); a `#` NOT followed by two hexadecimal digits "
             "is accepted by Parsley as the literal byte `#` and is included as a spelling (oracle Spec/NameLit.lean nameDenote: left to right, own digit table, independent of the model; parser side name_model_eq_nameDenote / name_raw_hash_parse; "
             "the encoder `spell` always writes `#23`, so the random spellings below never contain a raw `#`). Tokens: EVERY sequence of 1..4 (thorough 1..6) symbols over {A, #, 4, 1, G, `#41`} that contains a `#` - so a raw `#` stands at every "
